@@ -39,15 +39,19 @@ const (
 	pxSTCP  = "stcp"
 	pxSUDP  = "sudp"
 	pxXTCP  = "xtcp"
-	pxHTTP  = "http" // type http with proxy protocol v1
+	pxHTTP  = "http"   // type http with proxy protocol v1
+	pxHPA   = "hpauth" // plugin http_proxy with credentials u / p
+	pxS5A   = "s5auth" // plugin socks5 with credentials u / p
+	pxSFA   = "sfauth" // plugin static_file with credentials u / p
+	pxHS2H  = "hs2h"   // plugin https2http (self-signed certificate)
 	skValue = "c16-sk"
 )
 
-var clientProxyNames = []string{pxWD, pxPP2, pxPP1, pxEncZ, pxLim, pxUDP, pxUDPL, pxHP, pxSF, pxS5, pxUDS, pxH2H, pxSTCP, pxSUDP, pxXTCP, pxHTTP}
+var clientProxyNames = []string{pxWD, pxPP2, pxPP1, pxEncZ, pxLim, pxUDP, pxUDPL, pxHP, pxSF, pxS5, pxUDS, pxH2H, pxSTCP, pxSUDP, pxXTCP, pxHTTP, pxHPA, pxS5A, pxSFA, pxHS2H}
 
 // kind of client-side handler behind each name (what the fake server sends after StartWorkConn)
 var clientProxyKind = map[string]string{pxWD: "tcp", pxPP2: "tcp", pxPP1: "tcp", pxEncZ: "cipher", pxLim: "cipher", pxUDP: "udp", pxUDPL: "udp",
-	pxHP: "http", pxSF: "http", pxS5: "socks", pxUDS: "tcp", pxH2H: "http", pxSTCP: "tcp", pxSUDP: "udp", pxXTCP: "xtcp", pxHTTP: "tcp"}
+	pxHP: "http", pxSF: "http", pxS5: "socks", pxUDS: "tcp", pxH2H: "http", pxSTCP: "tcp", pxSUDP: "udp", pxXTCP: "xtcp", pxHTTP: "tcp", pxHPA: "http", pxS5A: "socks", pxSFA: "http", pxHS2H: "tls"}
 
 func udpEcho(ip string) (*net.UDPConn, error) {
 	c, err := net.ListenUDP("udp", &net.UDPAddr{IP: net.ParseIP(ip)})
@@ -147,6 +151,23 @@ func clientMain(args []string) {
 	tcp(pxS5, func(b *v1.ProxyBaseConfig) {
 		b.LocalPort = 0
 		b.Plugin = v1.TypedClientPluginOptions{Type: v1.PluginSocks5, ClientPluginOptions: &v1.Socks5PluginOptions{Type: v1.PluginSocks5}}
+	})
+	tcp(pxHPA, func(b *v1.ProxyBaseConfig) {
+		b.LocalPort = 0
+		b.Plugin = v1.TypedClientPluginOptions{Type: v1.PluginHTTPProxy, ClientPluginOptions: &v1.HTTPProxyPluginOptions{Type: v1.PluginHTTPProxy, HTTPUser: "u", HTTPPassword: "p"}}
+	})
+	tcp(pxS5A, func(b *v1.ProxyBaseConfig) {
+		b.LocalPort = 0
+		b.Plugin = v1.TypedClientPluginOptions{Type: v1.PluginSocks5, ClientPluginOptions: &v1.Socks5PluginOptions{Type: v1.PluginSocks5, Username: "u", Password: "p"}}
+	})
+	tcp(pxSFA, func(b *v1.ProxyBaseConfig) {
+		b.LocalPort = 0
+		b.Plugin = v1.TypedClientPluginOptions{Type: v1.PluginStaticFile, ClientPluginOptions: &v1.StaticFilePluginOptions{Type: v1.PluginStaticFile, LocalPath: dir, StripPrefix: "static", HTTPUser: "u", HTTPPassword: "p"}}
+	})
+	tcp(pxHS2H, func(b *v1.ProxyBaseConfig) {
+		b.LocalPort = 0
+		b.Plugin = v1.TypedClientPluginOptions{Type: v1.PluginHTTPS2HTTP, ClientPluginOptions: &v1.HTTPS2HTTPPluginOptions{Type: v1.PluginHTTPS2HTTP,
+			LocalAddr: net.JoinHostPort(ip, fmt.Sprint(echo.Port()))}}
 	})
 	tcp(pxUDS, func(b *v1.ProxyBaseConfig) {
 		b.LocalPort = 0
